@@ -347,7 +347,12 @@ class ADWIN(StreamingDetector):
             n_curr + self._window_size
         )
         curr_bucket_row.remove_buckets(1)
-        if curr_bucket_row.bucket_count == 0:
+        # also drop rows emptied earlier by compression (possible when
+        # max_buckets == 1), so that the tail always holds the oldest bucket
+        while (
+            self._bucket_row_list.size > 1
+            and self._bucket_row_list.tail.bucket_count == 0
+        ):
             self._bucket_row_list.remove_tail()
         return n_curr
 
